@@ -82,7 +82,29 @@ Fixpoint run_levels (t : text) (mparent sparent : option (option (nat * nat))) (
       triple m1 s1 0 :: triple m2 s2 0 :: run_levels t mnext snext os'
   end.
 
+(* request (7 len): relative_offset for every pair of ranges over a text of that length.
+   Specification: embedded -> the well-formed offset in that mode, which re-resolves to the range;
+   not embedded -> nothing is reported. *)
+Definition ranges_upto (len : nat) : list (nat * nat) :=
+  flat_map (fun b => map (fun e => (b, e)) (seq b (S len - b))) (seq 0 (S len)).
+
+Definition pair_case (len : nat) (t c : nat * nat) : sx :=
+  let model := L (map (fun m => report_sx (relative_offset t c m) (findtext_sel_ts len c)) modes) in
+  let spec := L (map (fun m =>
+                  if (fst c <=? fst t) && (snd t <=? snd c) then
+                    let off := spec_report (snd c - fst c) (fst t - fst c) (snd t - fst c) m in
+                    L (sx_of_cursor (o_begin off) ++ sx_of_cursor (o_end off) ++ [of_nat (fst t); of_nat (snd t)])
+                  else L [A (-1)]) modes) in
+  triple model spec 0.
+
+Definition run_pairs (len : nat) : list sx :=
+  flat_map (fun t => map (fun c => pair_case len t c) (ranges_upto len)) (ranges_upto len).
+
 Definition run_C04 (x : sx) : sx :=
-  let t := map sx_N (sx_list (sx_nth 0 x)) in
-  let os := map offset_of_sx (sx_list (sx_nth 1 x)) in
-  L (run_levels t (Some None) (Some None) os).
+  match sx_nth 0 x with
+  | A _ => L (run_pairs (sx_nat (sx_nth 1 x)))
+  | L _ =>
+      let t := map sx_N (sx_list (sx_nth 0 x)) in
+      let os := map offset_of_sx (sx_list (sx_nth 1 x)) in
+      L (run_levels t (Some None) (Some None) os)
+  end.
